@@ -38,6 +38,21 @@ func (fx *FnCtx) havocHeaps(st *State, m *Modset) {
 			st.heaps[key] = h
 			if e.freshOnly {
 				fx.s.assume("true", fmt.Sprintf("(forall ((r Ref)) (! (=> (<= (obj r) %s) (= (select %s r) (select %s r))) :pattern ((select %s r))))", pre.alloc, h, old, h))
+			} else if !e.allFields && !e.isMap {
+				// only some top-level fields of pre-existing cells may change
+				if _, isStruct := e.typ.Underlying().(*types.Struct); isStruct && !isTimeTime(e.typ) {
+					si := fx.tm.structInfo(e.typ)
+					var parts []Term
+					for i, f := range si.Fields {
+						if e.fields[i] {
+							continue
+						}
+						parts = append(parts, fmt.Sprintf("(= (%s (select %s r)) (%s (select %s r)))", f.Sel, h, f.Sel, old))
+					}
+					if len(parts) > 0 {
+						fx.s.assume("true", fmt.Sprintf("(forall ((r Ref)) (! (=> (<= (obj r) %s) %s) :pattern ((select %s r))))", pre.alloc, and(parts...), h))
+					}
+				}
 			}
 		}
 		for k := range m.ghost {
